@@ -210,7 +210,7 @@ class NaiveThresholdMatching(InstanceMatchingAlgorithm):
             if (
                 labelmap.contains_or(pred_label, ref_label)
                 and not self._allow_many_to_one
-            ):
+            ) or labelmap.contains_pred(pred_label):
                 continue  # -> doesnt make speed difference
             # TODO always go in here, but add the matching score to the pair (so evaluation over multiple thresholds becomes easy)
             if self._matching_metric.score_beats_threshold(
